@@ -2,8 +2,10 @@
 Hand model of ppci/opt/constantfolding.py (import-free).
 
 Python `int` ↦ `Int`.  Python operators are modelled with Python's semantics:
-`%` is floor-mod (`Int.fmod`, `ZeroDivisionError` for 0), `<<`/`>>` raise
-`ValueError` for a negative count, `a << b = a * 2^b`, `a >> b = ⌊a / 2^b⌋`.
+`%` is floor-mod (`Int.fmod`, `ZeroDivisionError` for 0), `abs` is `|·|`, `<<`/`>>`
+raise `ValueError` for a negative count, `a << b = a * 2^b`, `a >> b = ⌊a / 2^b⌋`.
+The model follows the source after the two `fix:` commits recorded in
+findings/C38.json (`%` evaluated by `irem`, chain constants passed through `correct`).
 `value.bit_length()` ↦ `bitLength` (0 for 0, else ⌊log2⌋+1).
 The SSA graph below an instruction is viewed as an expression tree (`Expr`):
 operands are followed through their `a`/`b`/`src` pointers exactly as
@@ -57,27 +59,45 @@ def correct (value : Int) (ty : Typ) : Int :=
 /-- `cast(value, ty)` for an integer `ty` and an `int` value: `correct(int(value), ty)` -/
 def cast (value : Int) (ty : Typ) : Int := correct value ty
 
-/-- the Python functions that appear in the `ops` table (`operator.*`) -/
-inductive PyOp | add | sub | mul | mod | lshift | rshift
+/-- Python functions that can be wrapped by `enhance`: `operator.*` and the module's own `irem`
+    (`mod` = `operator.mod` is what the table held before the fix; it is no longer in `ops`) -/
+inductive PyOp | add | sub | mul | mod | irem | lshift | rshift
   deriving DecidableEq, Repr
 
-/-- `__name__` of the Python function -/
+/-- `__module__.__name__` of the Python function -/
 def PyOp.pyName : PyOp → String
-  | .add => "add" | .sub => "sub" | .mul => "mul" | .mod => "mod"
-  | .lshift => "lshift" | .rshift => "rshift"
+  | .add => "operator.add" | .sub => "operator.sub" | .mul => "operator.mul" | .mod => "operator.mod"
+  | .irem => "ppci.opt.constantfolding.irem"
+  | .lshift => "operator.lshift" | .rshift => "operator.rshift"
+
+/-- Python `a % b` -/
+def pyMod (a b : Int) : Except Err Int :=
+  if b = 0 then .error .ZeroDivisionError else .ok (Int.fmod a b)
+
+/-- Python `abs` -/
+def pyAbs (a : Int) : Int := if a < 0 then -a else a
+
+/-- `irem(a, b)`:
+      value = abs(a) % abs(b)
+      return -value if a < 0 else value -/
+def irem (a b : Int) : Except Err Int :=
+  match pyMod (pyAbs a) (pyAbs b) with
+  | .error e => .error e
+  | .ok value => .ok (if a < 0 then -value else value)
 
 /-- Python semantics of the function on two `int`s -/
 def PyOp.apply : PyOp → Int → Int → Except Err Int
   | .add, a, b => .ok (a + b)
   | .sub, a, b => .ok (a - b)
   | .mul, a, b => .ok (a * b)
-  | .mod, a, b => if b = 0 then .error .ZeroDivisionError else .ok (Int.fmod a b)
+  | .mod, a, b => pyMod a b
+  | .irem, a, b => Model.ConstFold.irem a b
   | .lshift, a, b => if b < 0 then .error .ValueError else .ok (a * 2 ^ b.toNat)
   | .rshift, a, b => if b < 0 then .error .ValueError else .ok (a / 2 ^ b.toNat)
 
 /-- `ConstantFolder.ops`: IR operator ↦ `enhance(<python function>)` -/
 def ops : List (String × PyOp) :=
-  [("+", .add), ("-", .sub), ("*", .mul), ("%", .mod), ("<<", .lshift), (">>", .rshift)]
+  [("+", .add), ("-", .sub), ("*", .mul), ("%", .irem), ("<<", .lshift), (">>", .rshift)]
 
 /-- `enhance(f)(ty, a, b) = correct(f(a, b), ty)` -/
 def enhance (f : PyOp) (ty : Typ) (a b : Int) : Except Err Int :=
@@ -91,7 +111,7 @@ inductive Expr
   | cast (ty : Typ) (src : Expr)
   | binop (ty : Typ) (op : String) (a b : Expr)
   | other (ty : Typ) (id : Nat)          -- anything else (parameter, load, phi, …)
-  deriving Repr
+  deriving DecidableEq, Repr
 
 def Expr.ty : Expr → Typ
   | .const ty _ | .cast ty _ | .binop ty _ _ _ | .other ty _ => ty
@@ -133,10 +153,11 @@ inductive Action
   | keep                                       -- nothing matched
   | replace (ty : Typ) (value : Int)           -- `instruction.replace_by(Const value)`
   | rechain (a : Expr) (ty : Typ) (value : Int) -- `instruction.a = instruction.a.a; instruction.b = Const value`
-  deriving Repr
+  deriving DecidableEq, Repr
 
-/-- the constant of the chain rewrites: `ir.Const(a.value + b.value, "new_fold", a.ty)` -/
-def chainConst (_ty : Typ) (va vb : Int) : Int := va + vb
+/-- the constant of the chain rewrites:
+      value = correct(a.value + b.value, a.ty); cn = ir.Const(value, "new_fold", a.ty) -/
+def chainConst (ty : Typ) (va vb : Int) : Int := correct (va + vb) ty
 
 /-- body of the loop in `ConstantFolder.on_block` for one instruction -/
 def onInstr (ins : Expr) : Except Err Action :=
